@@ -791,6 +791,39 @@ func (m *Mint) GetMeltQuoteState(ctx context.Context, quoteId string) (storage.M
 	return meltQuote, nil
 }
 
+// releaseFailedMelt marks the melt quote as unpaid and unlocks its inputs after its payment has
+// definitely failed. A check of the quote by another request may have done that already, and the
+// inputs may be locked by a different melt by now: only proofs that are still pending for this
+// quote are released.
+func (m *Mint) releaseFailedMelt(quoteId string, Ys []string) error {
+	m.proofsMu.Lock()
+	defer m.proofsMu.Unlock()
+
+	pending, err := m.db.GetPendingProofsByQuote(quoteId)
+	if err != nil {
+		errmsg := fmt.Sprintf("error getting pending proofs for quote: %v", err)
+		return cashu.BuildCashuError(errmsg, cashu.DBErrCode)
+	}
+	if len(pending) != len(Ys) {
+		return nil
+	}
+	for _, dbproof := range pending {
+		if !slices.Contains(Ys, dbproof.Y) {
+			return nil
+		}
+	}
+
+	if err := m.db.UpdateMeltQuote(quoteId, "", nut05.Unpaid); err != nil {
+		errmsg := fmt.Sprintf("error updating melt quote state: %v", err)
+		return cashu.BuildCashuError(errmsg, cashu.DBErrCode)
+	}
+	if err := m.db.RemovePendingProofs(Ys); err != nil {
+		errmsg := fmt.Sprintf("error removing proofs from pending: %v", err)
+		return cashu.BuildCashuError(errmsg, cashu.DBErrCode)
+	}
+	return nil
+}
+
 func (m *Mint) removePendingProofsForQuote(quoteId string) (cashu.Proofs, error) {
 	dbproofs, err := m.db.GetPendingProofsByQuote(quoteId)
 	if err != nil {
@@ -957,15 +990,8 @@ func (m *Mint) MeltTokens(ctx context.Context, meltTokensRequest nut05.PostMeltB
 					meltQuote.PaymentHash, meltQuote.Id)
 
 				meltQuote.State = nut05.Unpaid
-				err = m.db.UpdateMeltQuote(meltQuote.Id, "", meltQuote.State)
-				if err != nil {
-					errmsg := fmt.Sprintf("error updating melt quote state: %v", err)
-					return storage.MeltQuote{}, cashu.BuildCashuError(errmsg, cashu.DBErrCode)
-				}
-				err = m.db.RemovePendingProofs(Ys)
-				if err != nil {
-					errmsg := fmt.Sprintf("error removing proofs from pending: %v", err)
-					return storage.MeltQuote{}, cashu.BuildCashuError(errmsg, cashu.DBErrCode)
+				if err := m.releaseFailedMelt(meltQuote.Id, Ys); err != nil {
+					return storage.MeltQuote{}, err
 				}
 				return meltQuote, nil
 			}
@@ -983,15 +1009,8 @@ func (m *Mint) MeltTokens(ctx context.Context, meltTokensRequest nut05.PostMeltB
 					paymentStatus.PaymentFailureReason, meltQuote.Id)
 
 				meltQuote.State = nut05.Unpaid
-				err = m.db.UpdateMeltQuote(meltQuote.Id, "", meltQuote.State)
-				if err != nil {
-					errmsg := fmt.Sprintf("error updating melt quote state: %v", err)
-					return storage.MeltQuote{}, cashu.BuildCashuError(errmsg, cashu.DBErrCode)
-				}
-				err = m.db.RemovePendingProofs(Ys)
-				if err != nil {
-					errmsg := fmt.Sprintf("error removing proofs from pending: %v", err)
-					return storage.MeltQuote{}, cashu.BuildCashuError(errmsg, cashu.DBErrCode)
+				if err := m.releaseFailedMelt(meltQuote.Id, Ys); err != nil {
+					return storage.MeltQuote{}, err
 				}
 				return meltQuote, nil
 			case lightning.Succeeded:
